@@ -275,7 +275,97 @@ def gen_s3shapes():
     return ''.join(out)
 
 
-GENERATORS = {'Consts': gen_consts, 'ArgTables': gen_argtables, 'S3Shapes': gen_s3shapes}
+def _cfg_attr(node):
+    """`self._config.<attr>` -> attr ; literal int -> str(int)"""
+    if isinstance(node, ast.Attribute) and isinstance(node.value, ast.Attribute) and node.value.attr == '_config':
+        return node.attr
+    if isinstance(node, ast.Constant) and isinstance(node.value, int):
+        return str(node.value)
+    raise ExtractError('manager: cannot read executor argument %s' % ast.dump(node)[:100])
+
+
+def _kw(call, name):
+    for k in call.keywords:
+        if k.arg == name:
+            return k.value
+    return None
+
+
+def gen_wiring():
+    m = module('manager')
+    init = m.func('TransferManager', '__init__')
+    execs = {}
+    for node in ast.walk(init):
+        if isinstance(node, ast.Assign) and isinstance(node.value, ast.Call) \
+                and isinstance(node.value.func, ast.Name) and node.value.func.id == 'BoundedExecutor':
+            tgt = node.targets[0]
+            if isinstance(tgt, ast.Attribute):
+                call = node.value
+                info = {'max_size': _cfg_attr(_kw(call, 'max_size')), 'threads': _cfg_attr(_kw(call, 'max_num_threads')), 'tags': []}
+                tags = _kw(call, 'tag_semaphores')
+                if tags is not None:
+                    if not isinstance(tags, ast.Dict):
+                        raise ExtractError('manager: tag_semaphores is not a dict literal')
+                    for k, v in zip(tags.keys, tags.values):
+                        if not (isinstance(k, ast.Name) and isinstance(v, ast.Call) and isinstance(v.func, ast.Name)):
+                            raise ExtractError('manager: unreadable tag semaphore entry')
+                        info['tags'].append((k.id, v.func.id, _cfg_attr(v.args[0])))
+                execs[tgt.attr] = info
+    for name in ('_request_executor', '_submission_executor', '_io_executor'):
+        if name not in execs:
+            raise ExtractError('manager: %s is no longer a BoundedExecutor(...) assignment' % name)
+    sh = m.func('TransferManager', '_shutdown')
+    order = []
+    for node in ast.walk(sh):
+        if isinstance(node, ast.Call) and isinstance(node.func, ast.Attribute) and node.func.attr == 'shutdown' \
+                and isinstance(node.func.value, ast.Attribute):
+            order.append((node.lineno, node.func.value.attr))
+    order = [a for _, a in sorted(order)]
+
+    def task_calls(modname, cname):
+        """Task constructions inside a submission task: (class name, is_final, pending keys)"""
+        res = []
+        for node in ast.walk(module(modname).cls(cname)):
+            if isinstance(node, ast.Call) and isinstance(node.func, ast.Name) and node.func.id.endswith('Task'):
+                fin = _kw(node, 'is_final')
+                pend = _kw(node, 'pending_main_kwargs')
+                keys = []
+                if isinstance(pend, ast.Dict):
+                    keys = [k.value for k in pend.keys if isinstance(k, ast.Constant)]
+                res.append((node.func.id, bool(fin is not None and isinstance(fin, ast.Constant) and fin.value), sorted(keys)))
+        return res
+    out = [HEADER, 'namespace S3V.Gen\n']
+    for name, lean in (('_request_executor', 'req'), ('_submission_executor', 'sub'), ('_io_executor', 'io')):
+        out.append('def %sMaxSize : String := %s\n' % (lean, lean_str(execs[name]['max_size'])))
+        out.append('def %sThreads : String := %s\n' % (lean, lean_str(execs[name]['threads'])))
+        out.append('def %sTags : List (String × String × String) := [%s]\n' % (
+            lean, ', '.join('(%s, %s, %s)' % tuple(lean_str(x) for x in t) for t in execs[name]['tags'])))
+    out.append('def shutdownOrder : List String := %s\n' % lean_strlist(order))
+    for modname, cname, lean in (('upload', 'UploadSubmissionTask', 'uploadTasks'), ('copies', 'CopySubmissionTask', 'copyTasks'),
+                                 ('delete', 'DeleteSubmissionTask', 'deleteTasks'), ('download', 'DownloadSubmissionTask', 'downloadTasks')):
+        calls = task_calls(modname, cname)
+        out.append('def %s : List (String × Bool × List String) := [%s]\n' % (
+            lean, ', '.join('(%s, %s, %s)' % (lean_str(c), 'true' if f else 'false', lean_strlist(k)) for c, f, k in calls)))
+    # final flags of the download output managers' final tasks
+    dl = module('download')
+    finals = []
+    for cname in ('DownloadFilenameOutputManager', 'DownloadSeekableOutputManager', 'DownloadNonSeekableOutputManager',
+                  'DownloadSpecialFilenameOutputManager'):
+        f = dl.func(cname, 'get_final_io_task')
+        for node in ast.walk(f):
+            if isinstance(node, ast.Call) and isinstance(node.func, ast.Name) and node.func.id.endswith('Task'):
+                fin = _kw(node, 'is_final')
+                finals.append((cname, node.func.id, bool(fin is not None and getattr(fin, 'value', False))))
+    out.append('def downloadFinalTasks : List (String × String × Bool) := [%s]\n' % ', '.join(
+        '(%s, %s, %s)' % (lean_str(a), lean_str(b), 'true' if c else 'false') for a, b, c in finals))
+    # CompleteDownloadNOOPTask defaults is_final=True
+    noop_default = default_arg('download', 'CompleteDownloadNOOPTask', '__init__', 'is_final')
+    out.append('def noopTaskFinalDefault : Bool := %s\n' % ('true' if noop_default else 'false'))
+    out.append('end S3V.Gen\n')
+    return ''.join(out)
+
+
+GENERATORS = {'Consts': gen_consts, 'ArgTables': gen_argtables, 'S3Shapes': gen_s3shapes, 'Wiring': gen_wiring}
 
 
 def extract_all():
